@@ -10,11 +10,14 @@ TABLE = {
     "C01": ("rt", ("C01",)),
     "C03": ("rt", ("C03",)),
     "C02": ("c02", ()),
+    "C04": ("c04", ()),
     "C09": ("c09", ()),
     "C10": ("c10", ()),
+    "C11": ("c11", ()),
     "C12": ("c12", ()),
     "C13": ("c13", ()),
     "C14": ("c14", ()),
+    "C15": ("c15", ()),
     "C20": ("c20", ()),
 }
 
